@@ -35,6 +35,65 @@ pub fn battery(seed: u64, size: usize) -> Vec<(String, u64)> {
             }
         }
     }
+    // ---- ProbMinHash3aSha over every key type with a byte identity (String, Vec<u8>, Vec<u16>, Vec<u32>, integers), after
+    // disturbing the heap (the identity bytes must not depend on whatever the allocator hands out)
+    {
+        use indexmap::IndexMap;
+        use probminhash::probminhasher::ProbMinHash3aSha;
+        fn sha_sig<D: Clone + Eq + std::fmt::Debug + std::hash::Hash + probminhash::probminhasher::sig::Sig>(keys: Vec<D>, ph: D, m: usize) -> Vec<D> {
+            let mut map: IndexMap<D, f64> = IndexMap::new();
+            for (i, k) in keys.into_iter().enumerate() {
+                map.insert(k, 1. + (i % 7) as f64);
+            }
+            let mut s = ProbMinHash3aSha::<D>::new(m, ph);
+            s.hash_weigthed_idxmap(&map);
+            s.get_signature().clone()
+        }
+        // heap churn: blocks of many sizes filled with instance-dependent garbage, then freed
+        let churn = |salt: u64| {
+            let mut junk: Vec<Vec<u8>> = Vec::new();
+            let mut x = splitmix(salt ^ (&junk as *const _ as u64));
+            for i in 0..400usize {
+                x = splitmix(x);
+                let len = 1 + (x % 300) as usize + (i % 5) * 8;
+                junk.push((0..len).map(|j| (x >> (j % 56)) as u8 ^ j as u8).collect());
+            }
+            junk.truncate(200);
+            drop(junk);
+        };
+        for rep in 0..size.min(8) {
+            let nk = 3 + rep % 5;
+            let m = [4usize, 32, 128][rep % 3];
+            churn(rep as u64);
+            let v16: Vec<Vec<u16>> = (0..nk).map(|i| (0..(1 + 3 * i + rep)).map(|j| rng.random::<u16>() ^ j as u16).collect()).collect();
+            let d = sha_sig::<Vec<u16>>(v16, vec![], m);
+            out.push((format!("pmh3asha/keys=Vec<u16>/m={}/#{}", m, rep), fnv64(format!("{:?}", d).as_bytes())));
+            churn(rep as u64 + 100);
+            let v32: Vec<Vec<u32>> = (0..nk).map(|i| (0..(2 + 2 * i + rep)).map(|_| rng.random::<u32>()).collect()).collect();
+            let d = sha_sig::<Vec<u32>>(v32, vec![], m);
+            out.push((format!("pmh3asha/keys=Vec<u32>/m={}/#{}", m, rep), fnv64(format!("{:?}", d).as_bytes())));
+            churn(rep as u64 + 200);
+            let v8: Vec<Vec<u8>> = (0..nk).map(|i| (0..(1 + 5 * i)).map(|_| rng.random::<u8>()).collect()).collect();
+            let d = sha_sig::<Vec<u8>>(v8, vec![], m);
+            out.push((format!("pmh3asha/keys=Vec<u8>/m={}/#{}", m, rep), fnv64(format!("{:?}", d).as_bytes())));
+            let st: Vec<String> = (0..nk).map(|i| format!("clé-{}-{}", i, rng.random::<u32>())).collect();
+            let d = sha_sig::<String>(st, String::new(), m);
+            out.push((format!("pmh3asha/keys=String/m={}/#{}", m, rep), fnv64(format!("{:?}", d).as_bytes())));
+            let ints: Vec<i32> = (0..nk).map(|_| rng.random::<i32>() | 1).collect();
+            let d = sha_sig::<i32>(ints, 0, m);
+            out.push((format!("pmh3asha/keys=i32/m={}/#{}", m, rep), fnv64(format!("{:?}", d).as_bytes())));
+        }
+    }
+    // ---- ProbOrdMinHash2 on long sequences (tens of thousands of distinct elements that come back later)
+    for rep in 0..2usize.min(size) {
+        let nd = [20_000usize, 9_000][rep % 2];
+        let ids = fresh_ids(&mut rng, nd, 0);
+        let mut seq = ids.clone();
+        seq.extend(ids.iter().rev().step_by(2));
+        seq.extend_from_slice(&ids[..nd / 2]);
+        let s1 = ProbOrdMinHash2::<FnvHasher>::new(16, 2).hash_set(&seq);
+        out.push((format!("probordminhash2/Fnv/long/distinct={}/len={}/#{}", nd, seq.len(), rep), digest_u64s(&s1)));
+    }
     // ---- ProbOrdMinHash2
     for rep in 0..size * 2 {
         let l = [1usize, 2, 3, 5][rep % 4];
